@@ -2,6 +2,7 @@
 from __future__ import annotations
 
 import asyncio
+import random
 import base64
 
 from vf import devmon
@@ -54,6 +55,11 @@ def make_spec(rng):
     ]
     if rng.random() < 0.25:
         rng.choice(vectors[:6])["enabled"] = False
+    # permissions: the default, rw, and write-only (a password, a command) - every one of them takes client writes
+    prng = random.Random(rng.random())
+    for v in vectors:
+        if v["kind"] != "Light":
+            v["perm"] = prng.choice([None, None, "rw", "wo"])
     # sometimes the whole GROUP is disabled while the vectors' own flags stay on: no property of it is "enabled"
     genabled = rng.random() >= 0.12
     for v in vectors:
